@@ -270,12 +270,16 @@ func (dm *DMap) readRepair(winner *version, versions []*version) {
 			}
 
 			f.Lock()
-			e := newEnv(context.Background())
-			e.hkey = hkey
-			e.fragment = f
-			err = dm.putEntryOnFragment(e, winner.entry)
-			if err != nil {
-				dm.s.log.V(3).Printf("[ERROR] Failed to synchronize with replica: %v", err)
+			// Read repair is best effort: a fragment that the janitor removed between the
+			// lookup and the lock is left alone, the next read repairs the copy.
+			if dm.isFragmentRegistered(part, f) {
+				e := newEnv(context.Background())
+				e.hkey = hkey
+				e.fragment = f
+				err = dm.putEntryOnFragment(e, winner.entry)
+				if err != nil {
+					dm.s.log.V(3).Printf("[ERROR] Failed to synchronize with replica: %v", err)
+				}
 			}
 			f.Unlock()
 		} else {
